@@ -95,6 +95,8 @@ pub struct Prop {
     pub both_profiles: fn(Tier) -> bool,
     /// thorough tier: also a lean run with the crate compiled unoptimised (the default `cargo test` code generation)
     pub dbg_lean: bool,
+    /// cheap property: the whole quick/thorough run of the release profile is repeated with a Trace-level logger installed
+    pub trace_rerun: bool,
     /// does the statement promise a normal return (so that a hang is a violation and not a machinery error)?
     pub promises_return: bool,
 }
@@ -108,26 +110,26 @@ fn in_thorough(t: Tier) -> bool {
 
 pub fn registry() -> Vec<Prop> {
     vec![
-        Prop { id: "C01", run: c01::run, judge: c01::judge, both_profiles: in_thorough, dbg_lean: true, promises_return: true },
-        Prop { id: "C02", run: c02::run_c02, judge: c02::judge, both_profiles: in_thorough, dbg_lean: true, promises_return: true },
-        Prop { id: "C03", run: c02::run_c03, judge: c02::judge, both_profiles: in_thorough, dbg_lean: true, promises_return: true },
-        Prop { id: "C04", run: c04::run, judge: c04::judge, both_profiles: in_thorough, dbg_lean: false, promises_return: true },
-        Prop { id: "C05", run: c05::run, judge: c05::judge, both_profiles: always, dbg_lean: true, promises_return: true },
-        Prop { id: "C06", run: c06::run, judge: c06::judge, both_profiles: in_thorough, dbg_lean: false, promises_return: true },
-        Prop { id: "C07", run: c07::run, judge: c07::judge, both_profiles: in_thorough, dbg_lean: false, promises_return: true },
-        Prop { id: "C08", run: c08::run, judge: c08::judge, both_profiles: in_thorough, dbg_lean: false, promises_return: true },
-        Prop { id: "C09", run: c09::run, judge: c09::judge, both_profiles: in_thorough, dbg_lean: true, promises_return: true },
-        Prop { id: "C10", run: c10::run, judge: c10::judge, both_profiles: in_thorough, dbg_lean: false, promises_return: true },
-        Prop { id: "C11", run: c11::run, judge: c11::judge, both_profiles: in_thorough, dbg_lean: true, promises_return: true },
-        Prop { id: "C12", run: c12::run, judge: c12::judge, both_profiles: in_thorough, dbg_lean: false, promises_return: true },
-        Prop { id: "C13", run: c13::run, judge: c13::judge, both_profiles: in_thorough, dbg_lean: false, promises_return: true },
-        Prop { id: "C14", run: c14::run, judge: c14::judge, both_profiles: in_thorough, dbg_lean: false, promises_return: true },
-        Prop { id: "C15", run: c15::run, judge: c15::judge, both_profiles: in_thorough, dbg_lean: false, promises_return: true },
-        Prop { id: "C16", run: c16::run, judge: c16::judge, both_profiles: in_thorough, dbg_lean: false, promises_return: true },
-        Prop { id: "C17", run: c17::run, judge: c17::judge, both_profiles: always, dbg_lean: false, promises_return: true },
-        Prop { id: "C18", run: c18::run, judge: c18::judge, both_profiles: in_thorough, dbg_lean: false, promises_return: true },
-        Prop { id: "C19", run: c19::run, judge: c19::judge, both_profiles: in_thorough, dbg_lean: false, promises_return: true },
-        Prop { id: "C20", run: c20::run, judge: c20::judge, both_profiles: in_thorough, dbg_lean: false, promises_return: true },
+        Prop { id: "C01", run: c01::run, judge: c01::judge, both_profiles: in_thorough, dbg_lean: true, trace_rerun: false, promises_return: true },
+        Prop { id: "C02", run: c02::run_c02, judge: c02::judge, both_profiles: in_thorough, dbg_lean: true, trace_rerun: false, promises_return: true },
+        Prop { id: "C03", run: c02::run_c03, judge: c02::judge, both_profiles: in_thorough, dbg_lean: true, trace_rerun: false, promises_return: true },
+        Prop { id: "C04", run: c04::run, judge: c04::judge, both_profiles: in_thorough, dbg_lean: false, trace_rerun: false, promises_return: true },
+        Prop { id: "C05", run: c05::run, judge: c05::judge, both_profiles: always, dbg_lean: true, trace_rerun: false, promises_return: true },
+        Prop { id: "C06", run: c06::run, judge: c06::judge, both_profiles: in_thorough, dbg_lean: false, trace_rerun: false, promises_return: true },
+        Prop { id: "C07", run: c07::run, judge: c07::judge, both_profiles: in_thorough, dbg_lean: false, trace_rerun: true, promises_return: true },
+        Prop { id: "C08", run: c08::run, judge: c08::judge, both_profiles: in_thorough, dbg_lean: false, trace_rerun: false, promises_return: true },
+        Prop { id: "C09", run: c09::run, judge: c09::judge, both_profiles: in_thorough, dbg_lean: true, trace_rerun: false, promises_return: true },
+        Prop { id: "C10", run: c10::run, judge: c10::judge, both_profiles: in_thorough, dbg_lean: false, trace_rerun: true, promises_return: true },
+        Prop { id: "C11", run: c11::run, judge: c11::judge, both_profiles: in_thorough, dbg_lean: true, trace_rerun: true, promises_return: true },
+        Prop { id: "C12", run: c12::run, judge: c12::judge, both_profiles: in_thorough, dbg_lean: false, trace_rerun: true, promises_return: true },
+        Prop { id: "C13", run: c13::run, judge: c13::judge, both_profiles: in_thorough, dbg_lean: false, trace_rerun: true, promises_return: true },
+        Prop { id: "C14", run: c14::run, judge: c14::judge, both_profiles: in_thorough, dbg_lean: false, trace_rerun: true, promises_return: true },
+        Prop { id: "C15", run: c15::run, judge: c15::judge, both_profiles: in_thorough, dbg_lean: false, trace_rerun: false, promises_return: true },
+        Prop { id: "C16", run: c16::run, judge: c16::judge, both_profiles: in_thorough, dbg_lean: false, trace_rerun: true, promises_return: true },
+        Prop { id: "C17", run: c17::run, judge: c17::judge, both_profiles: always, dbg_lean: false, trace_rerun: true, promises_return: true },
+        Prop { id: "C18", run: c18::run, judge: c18::judge, both_profiles: in_thorough, dbg_lean: false, trace_rerun: true, promises_return: true },
+        Prop { id: "C19", run: c19::run, judge: c19::judge, both_profiles: in_thorough, dbg_lean: false, trace_rerun: true, promises_return: true },
+        Prop { id: "C20", run: c20::run, judge: c20::judge, both_profiles: in_thorough, dbg_lean: false, trace_rerun: true, promises_return: true },
     ]
 }
 
